@@ -19,31 +19,72 @@ PID = "C11"
 LEVEL = "exploration"
 ENGINE = "hooksim"
 CHUNK = 32
-REACH = ['loaded_instrumented', 'loaded_plain', 'loaded_under_overlapping_hooks', 'op:uninstall', 'op:reload', 'histories_cross_validated_with_real_processes']  # counters (prefixes) that a healthy batch makes non-zero; gaps are reported in the evidence
+REACH = ['ipy:instrumented', 'ipy:plain', 'ipy:magic_inside_cell', 'par:runs_with_preemption', 'loaded_instrumented', 'loaded_plain', 'loaded_under_overlapping_hooks', 'op:uninstall', 'op:reload', 'histories_cross_validated_with_real_processes']  # counters (prefixes) that a healthy batch makes non-zero; gaps are reported in the evidence
 BUDGET = {"quick": 35, "thorough": 600}
 RULE = (
     "Seeded single-process histories (bytecode caching off) of 6-16 operations: install_import_hook with "
     "1-3 names (dotted and undotted, look-alike siblings) x checker a/b/None (string, tuple form, "
     "pytest_configure option), with-block or explicit uninstall (also twice, also of an overlapping twin), "
     "imports of any forest module (parents and nested imports are loaded implicitly), function-level imports, "
-    "reloads.  Oracle: reference model of the instrumented set per load + finder count on sys.meta_path. "
+    "reloads, 2-3 threads importing concurrently under the baton scheduler.  One history in ten is a NOTEBOOK history instead: cells "
+    "of a real IPython shell (%load_ext jaxtyping, %jaxtyping.typechecker a/b as a line or as first line of a defining cell, cells "
+    "defining functions and classes, redefinitions, import cells, API hooks in between).  Oracle: reference model of the instrumented "
+    "set per load / per notebook definition + finder count on sys.meta_path. "
     "distinct_nontrivial = distinct (sequence of hook name sets / checkers / uninstall positions, import "
     "order) digests."
 )
-ASSUMPTIONS = ["IPython magic is not driven (needs a live shell); API, with-block and pytest entry point are",
+ASSUMPTIONS = ["the IPython magic is driven through a real in-process InteractiveShell (history database off), not through a Jupyter kernel",
                "spy typecheckers record and return the function unchanged"]
-COMPONENTS = {"real": ["jaxtyping._import_hook", "jaxtyping._pytest_plugin.pytest_configure", "CPython importlib", "file system"],
+COMPONENTS = {"real": ["jaxtyping._import_hook", "jaxtyping._pytest_plugin.pytest_configure", "jaxtyping._ipython_extension",
+                       "IPython InteractiveShell (cell execution, AST transformers, magics, extension manager)", "CPython importlib", "file system"],
               "stub": ["pytest config object", "spy typecheckers", "process boundary between histories (soft restart)"]}
 NAMES = ["foo", "foo.sub", "foo.sub.leaf", "foo.util", "foobar", "foo_bar", "fo", "bar", "bar.baz", "foox", "foox.sub", "fo.o", "foo.su"]
 
 
 def worker_init():
     hooksim.worker_init()
+    from .. import ipysim
+
+    ipysim.shell()  # created once per worker, before chunk children are forked (no threads: history is off)
+
+
+def gen_notebook(seed, r, forest):
+    """The IPython entry point: a history of notebook cells (see sim/ipysim.py)."""
+    cells = []
+    loaded = False
+    k = 0
+    hid = 0
+    active = []
+    for _ in range(r.randrange(4, 13)):
+        x = r.random()
+        if x < 0.15 or (not loaded and x < 0.4):
+            cells.append({"op": "load_ext" if not loaded or r.random() < 0.6 else "reload_ext"})
+            loaded = True
+        elif x < 0.35:
+            cells.append({"op": "magic", "checker": r.choice(("a", "b"))})
+        elif x < 0.7:
+            k += 1
+            cells.append({"op": "cell", "k": k, "magic_first": r.choice(("a", "b")) if r.random() < 0.2 else None})
+        elif x < 0.76 and k:
+            cells.append({"op": "redefine", "k": r.randrange(1, k + 1)})
+        elif x < 0.88:
+            cells.append({"op": "import", "module": r.choice(MODULES)})
+        elif x < 0.94:
+            hid += 1
+            cells.append({"op": "install", "id": f"h{hid}", "names": sorted(set(r.choice(NAMES) for _ in range(r.randrange(1, 3)))),
+                          "checker": r.choice(("a", "b"))})
+            active.append(f"h{hid}")
+        elif active:
+            cells.append({"op": "uninstall", "id": active.pop(r.randrange(len(active)))})
+    cells.append({"op": "recheck"})
+    return {"engine": ENGINE, "property": PID, "seed": seed, "kind": "ipython", "forest": forest, "cells": cells}
 
 
 def gen(seed, tier="quick"):
     r = rng(seed, "program")
     forest = gen_forest(r)
+    if rng(seed, "entry").random() < 0.1:
+        return gen_notebook(seed, r, forest)
     ops = []
     active = []
     hid = 0
@@ -92,7 +133,29 @@ def gen(seed, tier="quick"):
             "real_process": H(seed, "real") % (60 if tier == "thorough" else 600) == 0}
 
 
+def execute_notebook(scn):
+    from .. import ipysim
+
+    stats = Stats()
+    probs, obs = ipysim.run_notebook(scn, stats)
+    stats.inc("runs")
+    stats.inc("notebook_histories")
+    stats.inc("evaluations", stats.get("ipy:definitions") + stats.get("modules_loaded"))
+    viols, seen = [], set()
+    for p in probs:
+        s = dict(_sig(p), entry="ipython")
+        key = repr(sorted(s.items()))
+        if key not in seen:
+            seen.add(key)
+            viols.append(violation(PID, "notebook-observation", p, sig=s))
+    feat = digest([[(o["op"], o.get("checker"), o.get("magic_first"), o.get("module")) for o in scn["cells"]]])
+    return {"violations": viols, "stats": stats.c, "features": [feat], "digest": digest([probs, obs]),
+            "sample": {"cells": scn["cells"][:10]}}
+
+
 def execute(scn):
+    if scn.get("kind") == "ipython":
+        return execute_notebook(scn)
     stats = Stats()
     probs, obs_soft = hooksim.run_history(scn, stats)
     if scn.get("real_process"):
